@@ -749,3 +749,21 @@ Proof.
   destruct (a_i a) as [c| |]; try discriminate. destruct c; try discriminate.
   cbn in Hsem. rewrite Hsem. apply Z.add_0_r.
 Qed.
+
+(* ------------------------------------------------------------------ heap.clear() is redundant on a normal exit *)
+(* the while loop ends only on an empty heap: when it ends normally the private heap already is in its canonical state,
+   so the classification PRestored of the heap does not hinge on the final heap.clear() *)
+Lemma step_none_heap_empty : forall fl nbrs w pick K ds, step_fl fl nbrs w pick K ds = None -> d_heap ds = [].
+Proof.
+  intros fl nbrs w pick K ds H. destruct fl; cbn [step_fl] in H; [unfold step_pq in H|unfold step_fib in H];
+    destruct (d_heap ds); [reflexivity|discriminate|reflexivity|discriminate].
+Qed.
+
+Lemma loop_exit_heap_empty : forall fl nbrs w pick K fuel ds ds',
+  loop (step_fl fl nbrs w pick K) fuel ds = DOk ds' -> d_heap ds' = [].
+Proof.
+  intros fl nbrs w pick K fuel; induction fuel as [|fuel IH]; intros ds ds' H; cbn [loop] in H; [discriminate|].
+  destruct (step_fl fl nbrs w pick K ds) as [[ds1| |]|] eqn:E; try discriminate.
+  - exact (IH _ _ H).
+  - inversion H; subst. exact (step_none_heap_empty _ _ _ _ _ _ E).
+Qed.
